@@ -6,12 +6,12 @@
 
 let model_limit = 40000   (* total payload bytes up to which the byte-level model is executed *)
 
-type sideact = { bytes : int; shut : char }   (* shut: ' ' 'h' 'f' *)
+type sideact = { bytes : int; shut : char }   (* shut: ' ' 'h' 'f' 'a' 'u' *)
 
 let parse_side (s : string) : sideact =
   let n = String.length s in
   let shut, body =
-    if n > 0 && (s.[n-1] = 'h' || s.[n-1] = 'f') then s.[n-1], String.sub s 0 (n-1) else ' ', s in
+    if n > 0 && String.contains "hfau" s.[n-1] then s.[n-1], String.sub s 0 (n-1) else ' ', s in
   let total = ref 0 in
   List.iter (fun p ->
       let p = match String.index_opt p '~' with Some i -> String.sub p 0 i | None -> p in
@@ -30,23 +30,30 @@ let parse_phase (t : string) : sideact * sideact =
 
 exception Bad_out of string
 
-(* "t123+E" / "c#" *)
-let parse_eobs (pfx : char) (t : string) : eobs option =
+let aborts (a : sideact) = a.shut = 'a' || a.shut = 'u'
+(* after any full close of an end its peer may legitimately read a reset instead of EOF *)
+let gone (a : sideact) = aborts a || a.shut = 'f'
+let fin_of (a : sideact) : fin =
+  if aborts a then FinAbort else if a.shut <> ' ' then FinShut else FinNone
+
+(* "t123+E" / "c#".  A read error X counts as end-of-stream only once the
+   other end has aborted (allow_x); otherwise it is reported. *)
+let parse_eobs (allow_x : bool) (pfx : char) (t : string) : eobs option =
   if String.length t < 2 || t.[0] <> pfx then raise (Bad_out t);
   if t = String.make 1 pfx ^ "#" then None
   else begin
     let n = String.length t in
     if n < 4 then raise (Bad_out t);
     let e = t.[n-1] and ok = t.[n-2] in
-    if e = 'X' then raise (Bad_out "X");
-    if not ((e = 'E' || e = '-') && (ok = '+' || ok = '!')) then raise (Bad_out t);
-    Some { o_n = n_of_dec (String.sub t 1 (n-3)); o_prefix = (ok = '+'); o_eos = (e = 'E') }
+    if e = 'X' && not allow_x then raise (Bad_out "X");
+    if not ((e = 'E' || e = '-' || e = 'X') && (ok = '+' || ok = '!')) then raise (Bad_out t);
+    Some { o_n = n_of_dec (String.sub t 1 (n-3)); o_prefix = (ok = '+'); o_eos = (e <> '-') }
   end
 
-let parse_cobs (t : string) : cobs =
+let parse_cobs ((cab, tab) : bool * bool) (t : string) : cobs =
   match String.index_opt t '/' with
-  | Some i -> { ob_t = parse_eobs 't' (String.sub t 0 i);
-                ob_c = parse_eobs 'c' (String.sub t (i+1) (String.length t - i - 1)) }
+  | Some i -> { ob_t = parse_eobs cab 't' (String.sub t 0 i);
+                ob_c = parse_eobs tab 'c' (String.sub t (i+1) (String.length t - i - 1)) }
   | None -> raise (Bad_out t)
 
 let stream (salt : int) (from : int) (len : int) : char list =
@@ -81,6 +88,9 @@ let judge _name ins outs =
              else VDisagree "connect_response"
        | _ -> VPropfail ("connect_fail_502", "got=" ^ String.concat "_" outs))
   | "TUN" :: via :: e :: b :: phtoks ->
+      let early_shut = e.[String.length e - 1] = 'h' in
+      let e = if early_shut then String.sub e 0 (String.length e - 1) else e in
+      let phtoks = if early_shut then "ch/t" :: phtoks else phtoks in
       let early = int_of_string (String.sub e 1 (String.length e - 1)) in
       let banner = int_of_string (String.sub b 1 (String.length b - 1)) in
       let phases = List.map parse_phase phtoks in
@@ -99,7 +109,12 @@ let judge _name ins outs =
                 | [] -> raise (Bad_out "empty") in
               let obtoks, rtok = split [] rest in
               if List.mem "BLOCKED" obtoks then VPropfail ("delivery_blocked", String.concat "_" outs) else
-              let obs = List.map parse_cobs obtoks in
+              (* per phase: has the client / the target aborted by now? *)
+              let abflags =
+                let ca = ref false and ta = ref false in
+                List.map (fun (c, t) -> ca := !ca || gone c; ta := !ta || gone t; (!ca, !ta)) phases in
+              if List.length obtoks <> List.length abflags then raise (Bad_out "shape");
+              let obs = List.map2 parse_cobs abflags obtoks in
               let rel = match rtok with
                 | "R1" -> Some true | "R0" -> Some false | "R-" -> None
                 | t -> raise (Bad_out t) in
@@ -126,7 +141,7 @@ let judge _name ins outs =
                         then stream 91 0 first_extra @ stream 91 !tpos t.bytes
                         else stream 91 !tpos t.bytes in
                       tpos := !tpos + t.bytes;
-                      { pa_c = cb; pa_cshut = (c.shut <> ' '); pa_t = tb; pa_tshut = (t.shut <> ' ') }) phases in
+                      { pa_c = cb; pa_cfin = fin_of c; pa_t = tb; pa_tfin = fin_of t }) phases in
                   let csent = stream 3 0 !cpos and tsent = stream 91 0 !tpos in
                   let s0 = init (stream 3 0 early) (stream 91 0 peeked_n) in
                   match run_script repaired s0 pacts with
